@@ -12,6 +12,9 @@ def systems(seed):
         A = rng.uniform(-1, 1, size=(n, n)) - 1.2 * np.eye(n)
         x0 = rng.uniform(0.5, 2, size=n)
         out.append(('linear%d' % n, A, x0))
+    # an initial state given as whole numbers (population counts): an integer-dtype array / a list of python ints
+    A = rng.uniform(-1, 1, size=(2, 2)) - 1.2 * np.eye(2)
+    out.insert(1, ('linear2-integer-x0', A, np.array([int(v) for v in rng.randint(3, 40, size=2)])))
     return out
 
 
@@ -40,7 +43,7 @@ def check_case(name, A, x0, method, full_output, include_origin, grid):
 def run(tier='quick', seed=0):
     evals, failures, samples, distinct = 0, [], [], set()
     grids = [np.array([0.5, 0.9, 2.0, 2.1, 4.0])] + ([np.linspace(0.4, 3.0, 7)] if tier != 'quick' else [])
-    for name, A, x0 in systems(seed)[: (2 if tier == 'quick' else 3)]:
+    for name, A, x0 in systems(seed)[: (2 if tier == 'quick' else 4)]:
         for method in METHODS:
             for fo in (False, True):
                 for io in (False, True):
@@ -62,8 +65,8 @@ def run(tier='quick', seed=0):
         failures += f2[1]
         distinct |= f2[2]
     return {'evaluations': evals, 'distinct_nontrivial': len(distinct), 'failures': failures, 'samples': samples,
-            'rule': 'random stable linear systems (1-3 states) on non-uniform grids, every method x full_output x includeOrigin, compared with the matrix exponential at 1e-6; thorough: integrate / integrate2 / solve_determ of an SIR and a one-state model against odeint at 1e-6',
-            'bound': '%d systems x 6 methods x 4 option pairs x %d grids' % (2 if tier == 'quick' else 3, len(grids))}
+            'rule': 'random stable linear systems (1-3 states, one with an integer-dtype initial state) on non-uniform grids, every method x full_output x includeOrigin, compared with the matrix exponential at 1e-6; thorough: integrate / integrate2 / solve_determ of an SIR and a one-state model against odeint at 1e-6',
+            'bound': '%d systems x 6 methods x 4 option pairs x %d grids' % (2 if tier == 'quick' else 4, len(grids))}
 
 
 def model_entry_points(seed):
